@@ -103,6 +103,27 @@ def make_case(ctx, rng, i):
             nt = rng.choice(sorted(prods))
             prods[nt] = prods[nt] + [(nt, rng.choice(terms)), (nt, rng.choice(terms), rng.choice(terms))]
         kind = "prefix-groups"
+    if kind.startswith("hidden-cycle") and rng.random() < 0.35:
+        # a symbol of the grammar has a twin: another symbol with exactly the same alternatives (two kinds of items
+        # written alike); the start symbol leads to the twin first
+        x = rng.choice(sorted(prods, key=lambda n: (len(prods[n]) < 2, n))[:max(1, sum(len(v) >= 2 for v in prods.values()))])
+        twin = rng.choice(["AA", "ZZ", x + "2", "A" + x])
+        if twin not in prods and "Q0" not in prods:
+            prods[twin] = list(prods[x])
+            prods["Q0"] = [(twin, rng.choice(terms)), (start,)] if rng.random() < 0.5 else [(start, rng.choice(terms)), (twin,)]
+            start = "Q0"
+            kind = "hidden-cycle-with-a-twin-symbol:" + kind.split(":")[1]
+    if rng.random() < 0.12 and cfg.kwargs.get('skip_tokens') is None and not kind.startswith("right-recursion"):
+        # a production names a token that is skipped before parsing (it can never match; what stands in front of that
+        # token is still expanded)
+        nts = [n for n in sorted(prods) if any(len(a) >= 1 for a in prods[n])]
+        if nts:
+            nt = rng.choice(nts)
+            k = rng.choice([j for j, a in enumerate(prods[nt]) if len(a) >= 1])
+            alt = list(prods[nt][k])
+            alt.insert(rng.randint(1, len(alt)), 'SPACE')
+            prods[nt] = prods[nt][:k] + [tuple(alt)] + prods[nt][k + 1:]
+            kind += "+skipped-token-in-a-production"
     if rng.random() < 0.06 and not kind.startswith(("hidden-cycle", "right-recursion")):
         # a symbol with an empty list of productions (legal: it simply never matches)
         free = [n for n in (['Z', 'Y', 'X'] if rng.random() < 0.5 else []) + gram.NT_NAMES + ['X', 'Y', 'Z'] if n not in prods]
@@ -398,6 +419,8 @@ def run_case(ctx, mon, cfg_id, terms, prods, start, kind, inputs_spec=None, rng=
         for _ in range(3):
             tok_lists.append([rng.choice(terms) for _ in range(rng.randint(0, 9))])
         for toks in tok_lists:
+            if any(t not in cfg.lexemes for t in toks):
+                continue        # (a sentence with a token that is skipped cannot be written)
             toks, text, expected = cfg.render_checked(rng, toks, dense=rng.random() < 0.2)
             if toks is None:
                 continue
@@ -622,9 +645,13 @@ def run_shard(ctx):
         for i in range(ctx.cases):
             rng = ctx.rng(i)
             cfg_id, terms, prods, start, kind = make_case(ctx, rng, i)
-            ctx.count("family_" + kind.split(":")[0])
+            ctx.count("family_" + kind.split(":")[0].split("+")[0].replace("-with-a-twin-symbol", ""))
             if kind.startswith(("hidden-cycle", "right-recursion")):
-                orders.add(kind)
+                orders.add(kind.split("+")[0].replace("-with-a-twin-symbol", ""))
+            if "twin" in kind:
+                ctx.count("grammars_with_twin_symbols")
+            if "skipped-token" in kind:
+                ctx.count("grammars_with_a_skipped_token_in_a_production")
             run_case(ctx, mon, cfg_id, terms, prods, start, kind, rng=rng)
             if i in (0, 1, 2):
                 ctx.sample({"family": kind, "grammar": gram.fmt_grammar(prods), "start": start,
